@@ -4,6 +4,7 @@ _OB = both("c15.objects", _CFG, shards=(6, 14), floor=1000)
 _CH = both("c15.chains", _CFG, shards=(8, 16), floor=3500)
 _PO = both("c15.pools", _CFG, shards=(4, 8), floor=700)
 _AP = both("c15.apis", _CFG, shards=(2, 4), floor=200)
+_RE = both("c15.reissue", _CFG, shards=(1, 4), floor=700)
 PLAN = dict(
     level="exploration",
     rule="c15.objects: one object (handled in 4 cases = parts, each re-creating it from the same template and keys; laws, truncations and "
@@ -40,14 +41,25 @@ PLAN = dict(
          "ParseCertificates / ParseCertificatePEM / ParseCertificateRequestPEM (round trip, truncated last element, wrong block types), MarshalCSRResponse -> ParseCSRResponse "
          "with 1-3 signing certificates, with and without enveloped encryption key and 1-2 encryption certificates (other signing key must be refused), subject keys given as "
          "crypto/ecdh P-256/P-384/P-521 and gmsm/ecdh SM2 keys, Verify on Certificate values without Raw. "
+         "c15.reissue: one case = one template history or one precedence template (7 kinds x 10 signer slots over all five signer key types). Histories: create -> parse -> the parsed object "
+         "(ToX509 form, or the smx509 value itself) becomes the next template with 1-3 of 15 changes a CA program makes (serial, dates, names, usages, basic constraints, policies, AIA/CRLDP, "
+         "name constraints, key identifiers given/cleared, ExtraExtensions, Subject, output-only members overwritten; another parent key type, another subject key) -> create -> parse, two "
+         "generations, for certificates under a CA, self-signed certificates, requests (Attributes kept or cleared) and revocation lists (one more / one fewer entry, changed reason in "
+         "RevokedCertificateEntries, or the deprecated RevokedCertificates maintained instead; renewed issuer, another issuer key). Precedence: templates from scratch that set both sides "
+         "differently: ExtraExtensions (encoded by crypto/x509 from differing member values) against each of 10 dedicated member groups, Extensions / Policies / Issuer / Version / Signature / "
+         "Raw* / PublicKey filled with contradicting values, RevokedCertificateEntries against RevokedCertificates, the CRL's AuthorityKeyId / Issuer / Extensions against the issuer "
+         "certificate, request Attributes against ExtraExtensions against name members, RawSubject against Subject (template, parent, request). Judged by the documented rule applied to the "
+         "template (effective template -> the field comparison of c15.objects, plus the exact set of extension identifiers of certificate, list and list entries) and, also where the "
+         "documentation is silent (RawSubject, Attributes that the deprecated type cannot represent), by giving the same template to crypto/x509 with P-256 twin keys: names, validity, serial, "
+         "complete extension lists, entry encodings, create/parse verdicts must agree. "
          "Structured key material (SM2 and P-256 keys whose public X and/or Y has one or two leading zero bytes, or whose scalar has; fixed "
          "scalars re-validated at child start against the reference curve) is used by object number, not by chance: every second certificate "
          "subject key, every second SM2/P-256 signer (issuer, CSR, self-signed) key, the temporary key of 6 of every 7 SM2 CFCA requests (each class "
          ">= 3 times per quick run) and one key of every third topology. c15.sha1: the object workload restricted to SHA-1 signature algorithms, run with GODEBUG=x509sha1=1 only. "
          "distinct = class keys (configuration | object kind / signer / algorithm / subject key / CA / constraints, or recipe / depth / "
-         "number of certificates / outcome pattern, or pools / instance keys / recipe / number of pools / fillers, or apis / signer / algorithm / leaves); no case is marked trivial",
+         "number of certificates / outcome pattern, or pools / instance keys / recipe / number of pools / fillers, or apis / signer / algorithm / leaves, or reissue / kind / signer / shape or rule); no case is marked trivial",
     # the purego children take about twice as long as the others: they are started first
-    jobs=[_CH[1], _OB[1], _CH[0], _OB[0], _PO[1], _PO[0], _AP[1], _AP[0],
+    jobs=[_CH[1], _OB[1], _CH[0], _OB[0], _PO[1], _PO[0], _AP[1], _AP[0], _RE[1], _RE[0],
           J("c15.sha1", configs=["sha1ok"], variant="asm", shards=(1, 2), floor=120)],
     assumptions=["crypto/x509, encoding/asn1, math/big of the toolchain are trusted (twin instance, independent parse of non-SM2 objects)",
                  "harness/ref/ec + harness/ref/sm3 (self-tested against GB/T 32918.5 / GB/T 32905 examples) are the independent SM2-SM3 verifier",
@@ -58,6 +70,8 @@ PLAN = dict(
                  "constraints of AddCertWithConstraint are documented for chains rooted in the entry: for entries of the pool given as Intermediates the model only uses "
                  "them when it demands a chain, never to refuse a returned one; the constraint rules do not depend on whether the entry itself is part of the argument",
                  "Verify giving up after its documented budget of 100 signature checks is recorded as inconclusive (possible where many same-subject CAs share a pool)",
+                 "template histories: a template that crypto/x509 refuses although smx509 accepts it (nil serial number on this toolchain) is not compared with the twin; "
+                 "request templates refused by both libraries, or whose product neither can parse (critical extensions inside the deprecated Attributes), are counted, not judged",
                  "not driven: Roots nil (system pool / platform verifier), CurrentTime zero (wall clock), X25519 subject keys (refused by CreateCertificate as by crypto/x509)"],
 )
 
@@ -74,6 +88,9 @@ CLAIM = dict(
          "MaxConstraintComparisions). CertPool objects with histories (clones extended separately, PEM bundles, constrained entries, duplicates, reuse over many Verify calls and in "
          "both roles) must behave as the list of certificates added to each of them: a chain never ends in a certificate that was not added to the very pool given as Roots. "
          "CheckSignatureWithDigest, the older CRL interface, the multi-certificate / PEM parsers and the GM/T 0092 response round-trip obey the same creation / alteration / key-substitution laws. "
+         "The field law also holds for templates that come from parsed objects (two generations of re-issue with changes, every signer key type) and for templates that populate both sides of a "
+         "documented precedence rule differently (ExtraExtensions, Extensions, key identifiers, RevokedCertificateEntries / RevokedCertificates, request Attributes, output-only members); where the "
+         "documentation is silent the result equals crypto/x509's for the same template. "
          "Exploration: sampled templates and topologies, exhaustive only over the single-byte substitutions of each sampled object (a quarter of the offsets for P-384 issuers).",
     design_ref="DESIGN.md 6 (C15)",
     note="trusted: crypto/x509 + encoding/asn1 of the toolchain, harness/ref/ec, harness/ref/sm3, the PKI model in harness/wl/c15/chains.go; "
